@@ -17,10 +17,8 @@ carries bit `7 - bitno` of the latched octet, SDA released during the acknowledg
 acknowledge clock carries `~ack_i`) and the loop invariant `sda_released_for_target_bits` are in
 `LunaVerif/Lemmas/I2cWrite.lean` (audited with this module).
 
-PARTIAL: the byte-level READ statement ("data_o is the eight bits sampled, MSB first") is only
-proved as the one-step fact `read_samples_when_scl_high`; the whole-operation statement would need
-a ghost list of sampled bits with `r_shreg % 2^k = value of the k bits sampled so far`; it is covered
-by the co-simulation and the monitor (`read-data`) only.
+The byte-level read statement (`read_returns_sampled_octet`: exactly eight samples, `data_o` = their
+value, first bit most significant) is in `LunaVerif/Lemmas/I2cRead.lean` (audited with this module).
 -/
 namespace LunaVerif.I2c
 
@@ -156,11 +154,11 @@ theorem read_samples_when_scl_high (c : Config) (s : State) (i : In)
   cases hf : s.fsm <;> simp only [step, hf, sclL, sclH, stbX, id] at hch ⊢ <;>
     (repeat' split at hch) <;> simp_all
 
-/-- One-step facts of the write path (see PARTIAL in the module comment): the data bit is put on
+/-- One-step facts of the write path (the byte-level statements built on them are in Lemmas/I2cWrite.lean): the data bit is put on
 SDA in `WRITE-DATA-SDA-X` (SCL held low) and is bit 7 of the shift register, which was loaded from
 `data_i` and moves left once per `WRITE-DATA-SCL-H`; `ack_o` changes only in `WRITE-ACK-SCL-H`
 with SCL released (and high), to the complement of the synchronised SDA line. -/
-theorem write_msb_first_and_ack_partial (c : Config) (s : State) (i : In) :
+theorem write_and_ack_step_facts (c : Config) (s : State) (i : In) :
     (s.fsm = .idle → i.start = false → i.stop = false → i.write = true →
       (step c s i).wShreg = i.dataI % 256 ∧ (step c s i).fsm = .wrDataSclL) ∧
     (s.fsm = .wrDataSdaX → stb s = true →
